@@ -12,6 +12,7 @@ package c05
 import (
 	"encoding/json"
 	"fmt"
+	"math/big"
 	"strings"
 	"testing"
 
@@ -184,7 +185,7 @@ func (s snap) diff(v any, path string) string {
 type isoCase struct {
 	Query   string    `json:"query"`
 	Spec    inputSpec `json:"spec"`
-	Var     univ.V    `json:"var"`    // value of $v
+	Var     univ.V    `json:"var"`     // value of $v
 	History []string  `json:"history"` // same | fresh | other | partial:<k>
 }
 
@@ -360,6 +361,9 @@ var mutating = []string{
 	"[.[] | .[0]? = 1]", ".[] |= .", "(.a, .c) |= (.[0] = 7)?", "del(.[]?[0]?)", "to_entries | from_entries", "with_entries(.value |= .)", "[.[]?] | sort | .[0] = 1", ".a as [$h] | [$h] + .a", "[.a[], 5]",
 	".[2:] + .[:2]", "[.[1:], .[:1]] | add", "[foreach .[] as $x ([]; . + [$x])]", "[foreach .[]? as $x ([]; . + [$x]; .[0] = 0)]", "reduce .[]? as $x ([]; . + [$x]) | .[0] = 1", "[limit(3; repeat(.[:1]))]",
 	"[.[]?, .[]?] | unique",
+	"[100000000000000000000, 200000000000000000000] | add", "100000000000000000000 as $x | [$x, $x, $x] | add", "[.[]? | numbers] | add", "[.[]?, .[]?] | map(numbers) | add", "[$v[]? | numbers] | add",
+	"reduce (.[]? | numbers) as $x (0; . + $x)", "[.[]? | numbers | . + 100000000000000000000] | add", "[.[]? | numbers | -.] | add", "[.[]? | numbers | . * 100000000000000000000] | (add, add)", "[.[]? | numbers] | (min, max, add, sort)",
+	"[.[]? | numbers | abs] | add", "([.[]? | numbers] | add) as $s | [$s, $s] | add", "[.[]? | numbers | tostring | tonumber] | add", "[limit(3; .[]? | numbers)] | add", "[.[]? | numbers] | join(\",\")?",
 	"[1,2,3] | .[0] = 9", "{\"a\":[1,2]} | .a += [3]", "[[1,2],[3]] | .[0] |= . + [4]", "[3,1,2] | sort", "{\"a\":{\"b\":1}} | del(.a.b)", "[1,2,3] as $c | $c | .[1:] = [7]", "[[1,2],[3]] | add | .[0] = 5",
 	"{\"a\":[1,2]} as $c | [$c, ($c | .a[0] = 0), $c]", "[[3,1],[2]] | map(sort)", "[1,2,3] | del(.[0])", "[1,2,3] | to_entries | .[0].value = 9", "{\"a\":{\"b\":1}} | .a.c = 2 | .a", "[[1,2],[3]] | flatten | .[0] = 0",
 	"[[1,2]] | .[0] as $x | ($x | .[0] = 9), $x", "{\"a\":[1,2]} | [.a, (.a |= reverse)]", "[1,2,3][1:] | .[0] = 0", "[[1,2,3][1:], [1,2,3][:2]] | add", "min_by(.a?)", "[.[]? | tojson | fromjson]", "tostream", "[tostream] | fromstream(.[])", "path(..)", "[splits(\"a\")]?", "ltrimstr(\"a\")", "ascii_downcase?", "@json", "[.[] | numbers] | add",
@@ -373,7 +377,10 @@ func specGen() *rapid.Generator[inputSpec] {
 		n := rapid.IntRange(0, 5).Draw(t, "n")
 		s := inputSpec{Spare: rapid.IntRange(0, 3).Draw(t, "spare"), Shape: rapid.SampledFrom(shapes).Draw(t, "shape"), Cut: rapid.IntRange(0, 5).Draw(t, "cut")}
 		for i := 0; i < n; i++ {
-			switch rapid.IntRange(0, 3).Draw(t, "ekind") {
+			switch rapid.IntRange(0, 4).Draw(t, "ekind") {
+			case 4:
+				b, _ := new(big.Int).SetString(rapid.SampledFrom([]string{"100000000000000000000", "-100000000000000000000", "9223372036854775808", "18446744073709551616", "5"}).Draw(t, "big"), 10)
+				s.Elems = append(s.Elems, univ.V{X: b})
 			case 0:
 				s.Elems = append(s.Elems, univ.V{X: rapid.IntRange(0, 9).Draw(t, "num")})
 			case 1:
